@@ -40,14 +40,14 @@ func c16Op(k int, pos int) []c16Rec {
 		d := fitmodel.Def{Local: 1, Global: 20, Fields: []fitmodel.FieldDef{{Num: 3, Size: 1, Base: fitmodel.Uint8}}}
 		return []c16Rec{def(d), {b: fitmodel.Data(1, []byte{id}), isData: true, unkMsg: -1}}
 	case 1: // one unlisted field
-		d := fitmodel.Def{Local: 2, Global: 20, Fields: []fitmodel.FieldDef{{Num: 3, Size: 1, Base: fitmodel.Uint8}, {Num: 200, Size: 1, Base: fitmodel.Uint8}}}
-		return []c16Rec{def(d), {b: fitmodel.Data(2, []byte{id, 9}), isData: true, unkMsg: -1, unkFlds: []uint32{fk(200)}}}
+		d := fitmodel.Def{Local: 1, Global: 20, Fields: []fitmodel.FieldDef{{Num: 3, Size: 1, Base: fitmodel.Uint8}, {Num: 200, Size: 1, Base: fitmodel.Uint8}}}
+		return []c16Rec{def(d), {b: fitmodel.Data(1, []byte{id, 9}), isData: true, unkMsg: -1, unkFlds: []uint32{fk(200)}}}
 	case 2: // two unlisted fields around a known one
 		d := fitmodel.Def{Local: 3, Big: true, Global: 20, Fields: []fitmodel.FieldDef{{Num: 201, Size: 2, Base: fitmodel.Uint16}, {Num: 3, Size: 1, Base: fitmodel.Uint8}, {Num: 202, Size: 3, Base: fitmodel.Byte}}}
 		return []c16Rec{def(d), {b: fitmodel.Data(3, []byte{1, 2, id, 3, 4, 5}), isData: true, unkMsg: -1, unkFlds: []uint32{fk(201), fk(202)}}}
 	case 3: // unknown message A
-		d := fitmodel.Def{Local: 4, Global: 0xFF00, Fields: []fitmodel.FieldDef{{Num: 1, Size: 1, Base: fitmodel.Uint8}, {Num: 253, Size: 4, Base: fitmodel.Uint32}}}
-		return []c16Rec{def(d), {b: fitmodel.Data(4, []byte{id, 1, 2, 3, 4}), isData: true, unkMsg: 0xFF00}}
+		d := fitmodel.Def{Local: 1, Global: 0xFF00, Fields: []fitmodel.FieldDef{{Num: 1, Size: 1, Base: fitmodel.Uint8}, {Num: 253, Size: 4, Base: fitmodel.Uint32}}}
+		return []c16Rec{def(d), {b: fitmodel.Data(1, []byte{id, 1, 2, 3, 4}), isData: true, unkMsg: 0xFF00}, {b: fitmodel.Data(1, []byte{id, 4, 3, 2, 1}), isData: true, unkMsg: 0xFF00}}
 	case 4: // unknown message B, two records
 		d := fitmodel.Def{Local: 5, Global: 0xFE00, Fields: []fitmodel.FieldDef{{Num: 7, Size: 2, Base: fitmodel.Uint16}}}
 		return []c16Rec{def(d), {b: fitmodel.Data(5, []byte{id, 1}), isData: true, unkMsg: 0xFE00}, {b: fitmodel.Data(5, []byte{id, 2}), isData: true, unkMsg: 0xFE00}}
@@ -56,8 +56,8 @@ func c16Op(k int, pos int) []c16Rec {
 		d2 := fitmodel.Def{Local: 1, Global: 20, Fields: []fitmodel.FieldDef{{Num: 203, Size: 1, Base: fitmodel.Uint8}, {Num: 3, Size: 1, Base: fitmodel.Uint8}}}
 		return []c16Rec{def(d1), {b: fitmodel.Data(1, []byte{id}), isData: true, unkMsg: -1}, def(d2), {b: fitmodel.Data(1, []byte{8, id}), isData: true, unkMsg: -1, unkFlds: []uint32{fk(203)}}}
 	case 6: // zero-field definition
-		d := fitmodel.Def{Local: 6, Global: 20}
-		return []c16Rec{def(d), {b: fitmodel.Data(6, nil), isData: true, unkMsg: -1}}
+		d := fitmodel.Def{Local: 1, Global: 20}
+		return []c16Rec{def(d), {b: fitmodel.Data(1, nil), isData: true, unkMsg: -1}, {b: fitmodel.Data(1, nil), isData: true, unkMsg: -1}}
 	case 7: // zero-field definition with developer flag
 		d := fitmodel.Def{Local: 7, Global: 20, DevFlag: true, Dev: []fitmodel.DevDef{{Num: 0, Size: 2, Idx: 0}}}
 		return []c16Rec{def(d), {b: fitmodel.Data(7, []byte{id, id}), isData: true, unkMsg: -1}}
@@ -69,16 +69,19 @@ func c16Op(k int, pos int) []c16Rec {
 	case 10: // definition with an unknown architecture byte
 		d := fitmodel.Def{Local: 10, Global: 20, Fields: []fitmodel.FieldDef{{Num: 3, Size: 1, Base: fitmodel.Uint8}}, ArchByte: 3}
 		return []c16Rec{{b: d.Bytes(), unkMsg: -1, fails: true}}
+	case 12: // unknown message with developer fields
+		d := fitmodel.Def{Local: 12, Global: 0xFC00, Fields: []fitmodel.FieldDef{{Num: 3, Size: 1, Base: fitmodel.Uint8}}, DevFlag: true, Dev: []fitmodel.DevDef{{Num: 0, Size: 2, Idx: 0}}}
+		return []c16Rec{def(d), {b: fitmodel.Data(12, []byte{id, 1, 1}), isData: true, unkMsg: 0xFC00}}
 	case 11: // unknown message with zero fields (counted, nothing to read)
-		d := fitmodel.Def{Local: 11, Global: 0xFD00}
-		return []c16Rec{def(d), {b: fitmodel.Data(11, nil), isData: true, unkMsg: 0xFD00}}
+		d := fitmodel.Def{Local: 1, Global: 0xFD00}
+		return []c16Rec{def(d), {b: fitmodel.Data(1, nil), isData: true, unkMsg: 0xFD00}, {b: fitmodel.Data(1, nil), isData: true, unkMsg: 0xFD00}}
 	}
 	panic("c16Op")
 }
 
-const c16Alpha = 12
+const c16Alpha = 13
 
-var c16Names = []string{"K", "KU1", "KU2", "UA", "UBx2", "REDEF", "Z", "ZDEV", "DEV", "UNDEF", "BADDEF", "UZ"}
+var c16Names = []string{"K", "KU1", "KU2", "UAx2", "UBx2", "REDEF", "Zx2", "ZDEV", "DEV", "UNDEF", "BADDEF", "UZx2", "UDEV"}
 
 type c16Replay struct {
 	Word    []int  `json:"word"`
@@ -92,8 +95,8 @@ func init() {
 	vx.Register(&vx.Prop{
 		ID:    "C16",
 		Level: "model_checking",
-		Rule: "all words of length <=3 (quick) / <=4 (thorough) over 12 record groups {known message; with 1 / 2 unlisted fields; two unknown messages; redefinition; zero-field definition without/with developer flag; developer fields; data for an undefined local type; bad definition; zero-field unknown message} x every truncation offset x all 8 option combinations (logger x unknown fields x unknown messages). " +
-			"Oracle: content, error text and bytes consumed equal the option-free run; lists absent when the option is off, sorted without duplicates when on; on success equal to the model counters, on failure completed <= reported <= completed + record in progress. states = distinct model counter states; transitions = records; traces = decodes compared",
+		Rule: "all words of length <=3 (quick) / <=4 (thorough) over 13 record groups {known message; with 1 / 2 unlisted fields; two unknown messages; redefinition; zero-field definition without/with developer flag; developer fields; data for an undefined local type; bad definition; zero-field unknown message} x every truncation offset x all 8 option combinations (logger x unknown fields x unknown messages). " +
+			"Most groups (re)define the same local type 1, so that words also cover redefinition of a slot from a known message with unlisted fields to an unknown or field-less message. Oracle: content, error text and bytes consumed equal the option-free run; lists absent when the option is off, sorted without duplicates when on; on success equal to the model counters, on failure completed <= reported <= completed + record in progress. states = distinct model counter states; transitions = records; traces = decodes compared",
 		Run: runC16,
 		Replay: func(raw json.RawMessage) (string, error) {
 			var r c16Replay
